@@ -11,7 +11,7 @@ def derive(quick, thorough, subs):
     open(os.path.join(SPEC, thorough), "w").write(t)
 
 ALLDIMS = "{11, 12, 21, 22, 13, 31, 23, 32, 33}"
-derive("MC_C01_quick.cfg", "MC_C01_thorough.cfg", {"Ds": "{1, 2, 3}", "R1s": "{1, 2, 3}", "R2s": "{1, 2, 3}", "Offs": "{0, 1}"})
+derive("MC_C01_quick.cfg", "MC_C01_thorough.cfg", {"Ds": "{1, 2, 3}", "R1s": "{1, 2, 3}", "R2s": "{1, 2, 3}", "Offs": "{0, 1}", "ExtraFK": '{"DiagMeasure", "DiagPDF:S"}'})
 derive("MC_C02_quick.cfg", "MC_C02_thorough.cfg", {"Ds": "{1, 2, 3}", "Rs": "{1, 2, 3}", "FKinds": '{"Factor", "Rank1", "Linear", "Const"}'})
 derive("MC_C03_quick.cfg", "MC_C03_thorough.cfg", {"MaxDeviate": "2", "Ds": "{2, 3}", "KLMs": "{123, 231, 312, 321}"})
 derive("MC_C03_quick.cfg", "MC_C03b_thorough.cfg", {"MaxDeviate": "1", "Ds": "{1, 4}", "KLMs": "{245, 514}", "Rs": "{1, 3}"})
